@@ -575,7 +575,15 @@ def c04_all():
     return c04() + c04_generated() + [{"kind": "stack_model", "depth": 2}]
 
 
-BATTERIES = {"C04": c04_all, "C05": c05, "C06": c06, "C07": c07, "C10": c10, "C13": c13, "C15": c15, "C18": c18}
+def c11():
+    return [{"kind": "value_laws"}] + [w for w in c06() if w["kind"] == "render_same"]
+
+
+def c12():
+    return [{"kind": "conversions"}]
+
+
+BATTERIES = {"C11": c11, "C12": c12, "C04": c04_all, "C05": c05, "C06": c06, "C07": c07, "C10": c10, "C13": c13, "C15": c15, "C18": c18}
 
 
 def battery(prop, thorough=False):
